@@ -42,9 +42,17 @@ static void GenNormal(Rng &r, int style, float *n) {
     }
     default: break;
   }
-  // lengths 1e-30 .. 1e30 (float range), mostly 1
+  // lengths 1e-30 .. FLT_MAX (float range), mostly 1
   double len = 1;
-  switch (r.below(8)) { case 0: len = 1e-30; break; case 1: len = 1e30; break; case 2: len = 1e-4; break; case 3: len = std::pow(10.0, r.uniform(-12, 12)); break; default: break; }
+  switch (r.below(9)) {
+    case 0: len = 1e-30; break; case 1: len = 1e30; break; case 2: len = 1e-4; break; case 3: len = std::pow(10.0, r.uniform(-12, 12)); break;
+    case 4: {  // top of the float range: the largest component at 0.3..1 x FLT_MAX (the L1 and L2 norms exceed FLT_MAX)
+      const double mx = std::max(std::fabs(v[0]), std::max(std::fabs(v[1]), std::fabs(v[2])));
+      if (mx > 0) len = 3.4028234e38 * r.uniform(0.3, 1.0) / mx;
+      break;
+    }
+    default: break;
+  }
   for (int c = 0; c < 3; ++c) n[c] = static_cast<float>(v[c] * len);
   if (n[0] == 0 && n[1] == 0 && n[2] == 0) n[0] = static_cast<float>(len);
 }
